@@ -101,9 +101,14 @@ def gen(rng: Any, prop: str, tier: str) -> dict[str, Any]:
             db = sess_db["s1" if sid == "s0" else "s0"]  # cross-database DDL: fully qualified names issued from the other database's session
         home = db == sess_db[sid]
         my_schemas = sorted(s for d, s in schemas if d == db)
-        kind = rng.choices(["create", "drop", "alter_add", "alter_drop", "alter_rename_col", "rename_table", "comment", "view", "drop_view", "ctas", "clone", "schema", "restart"],
-                           [12, 4, 4, 3, 3, 2, 5, 3, 1, 2, 2, 2, 2 if storage == "db_path" and not restarted and step > 2 else 0])[0]
+        kind = rng.choices(["create", "drop", "alter_add", "alter_drop", "alter_rename_col", "rename_table", "comment", "view", "drop_view", "ctas", "clone", "schema", "restart", "noop"],
+                           [12, 4, 4, 3, 3, 2, 5, 3, 1, 2, 2, 2, 2 if storage == "db_path" and not restarted and step > 2 else 0, 2])[0]
         mine = sorted(t for t in tables if t[0] == db)
+        if kind == "noop":
+            # statements fakesnow turns into "nothing to do": the metadata must stay exactly as most recently declared
+            t0 = rng.choice(mine) if mine else None
+            ops.append({"s": sid, "k": "exec", "ddl": "noop", "sql": rng.choice([f"SET V{step} = {step}", "SET V0 = 'x'"] + ([f"ALTER TABLE {'.'.join(t0)} CLUSTER BY ({tables[t0]['cols'][0][0]})"] if t0 else []))})
+            continue
         if kind == "create" and my_schemas:
             sc = rng.choice(my_schemas)
             name = rng.choice(["T1", "T2", "T3"])
